@@ -12,6 +12,7 @@ import types
 from . import core
 
 TOOL = 4
+SPIN_LINES = 400
 _mon = sys.monitoring
 _installed = False
 _line_codes = set()
@@ -32,10 +33,14 @@ def _on_line(code, line):
     if st is None:
         return None
     sim = st.sim
-    if sim.gran == 'sync':
-        return None
     if sim.aborted:
         raise core.SimAbort()
+    if sim.gran == 'sync':
+        # a loop without any synchronisation still has to yield now and then
+        st.steps += 1
+        if st.steps % SPIN_LINES:
+            return None
+        sim.steps += SPIN_LINES // 4
     st.tag = (_short_name(code), line)
     sim._switch(st)
     return None
@@ -46,10 +51,10 @@ def _on_instr(code, offset):
     if st is None:
         return None
     sim = st.sim
-    if sim.gran != 'opcode':
-        return None
     if sim.aborted:
         raise core.SimAbort()
+    if sim.gran != 'opcode':
+        return None
     st.tag = (_short_name(code), code.co_name, offset)
     sim._switch(st)
     return None
